@@ -16,7 +16,6 @@ def count_after(op):
 UNIT = dict(
     name="core_counts",
     props=["C15", "C17", "C04"],
-    implicit_props=["C15"],
     features=["allocator_api"],
     uses=["std::collections::HashMap", "vstd::std_specs::hash::*"],
     prelude=["str_ext.rs", "hashmap_ext.rs", "core_types.rs"],
